@@ -367,14 +367,16 @@ def gen_case(rng):
             opts += [f"--section-start={which}={rng.choice([0x800000, 0x1000000, 0x900010, 0x2000000, 0x100000, 0x200000]):#x}"]
             located = True
     script = None
+    backwards = False
     if kind in ("static", "shared") and not located and rng.random() < 0.15:
         script = SCRIPT % rng.choice(["0x400000 + SIZEOF_HEADERS", "0x10000", "0x800000"])
         if rng.random() < 0.3:
             script = script.replace(". = ALIGN(0x1000);", ". = 0x200000;" if "0x10000;" not in script else ". = 0x4000;")      # .data placed below .text
+            backwards = True
         located = True
         if rng.random() < 0.5 and "--no-gc-sections" not in opts:
             opts = [o for o in opts if o != "--gc-sections"] + ["--no-gc-sections"]
-    return {"kind": kind, "files": files, "opts": opts, "page": page, "script": script, "located": located, "nobj": nobj}
+    return {"kind": kind, "files": files, "opts": opts, "page": page, "script": script, "located": located, "nobj": nobj, "backwards": backwards}
 
 
 HELLO = r"""
@@ -615,6 +617,8 @@ def run(chk, replay=None):
                 stats["scripts"] += 1
             stats["located"] += int(c["located"])
             rep = {"seeds": [seed], "kind": c["kind"], "opts": args}
+            if c.get("backwards"):
+                rep["name"] = "generated-backwards-script"
             rc, out = sh(f"cd {d} && rm -f out trace && WILD_VERIF_LAYOUT={d}/trace timeout 60 {wild} {' '.join(objs)} -o out {' '.join(args)}", timeout=90)
             stats["links"] += 1
             if rc != 0:
